@@ -3,6 +3,7 @@ package props
 import (
 	"os"
 	"path/filepath"
+	"strings"
 	"testing"
 
 	"verif/vlib"
@@ -24,7 +25,16 @@ func TestMain(m *testing.M) {
 	if err := os.Chdir(WorkDir); err != nil {
 		panic(err)
 	}
-	vlib.Silence()
+	coordinator := os.Getenv("VERIF_FUZZ_FAILDIR") != ""
+	for _, a := range os.Args {
+		if strings.HasPrefix(a, "-test.fuzzworker") {
+			coordinator = false
+		}
+	}
+	if !coordinator {
+		// (the coordinator of a native fuzzing run reports progress on stdout)
+		vlib.Silence()
+	}
 	code := m.Run()
 	vlib.Unsilence()
 	os.RemoveAll(WorkDir)
